@@ -46,6 +46,8 @@ type XMLPart struct {
 	UTF16  bool     `json:"utf16,omitempty"`
 	Ops    []string `json:"ops,omitempty"`  // fault operators the generator applied (evidence only)
 	Salt   int64    `json:"salt,omitempty"` // makes the values of Seq attributes differ from case to case
+	// Lit: the text of the part, verbatim (hand-written inputs); Prolog and Root are not written, the byte-level faults apply
+	Lit string `json:"lit,omitempty"`
 }
 
 const stdDecl = `<?xml version="1.0" encoding="UTF-8" standalone="yes"?>` + "\n"
@@ -114,6 +116,9 @@ type writer struct {
 
 const fragName = "#frag"
 
+// rawName: a node that writes RawT verbatim (comments, processing instructions, text, CDATA between sibling elements).
+const rawName = "#raw"
+
 func (w *writer) seqValue(a *Attr) string {
 	w.seq++
 	switch a.Seq {
@@ -181,7 +186,7 @@ func (w *writer) one(n *Node, parentPending *[]string) {
 		dn = n.N
 	}
 	deep := n.Deep
-	if dn == fragName {
+	if dn == fragName || dn == rawName {
 		deep = 0
 	}
 	if deep > 0 && deep*(2*len(dn)+5) > w.left() {
@@ -195,7 +200,9 @@ func (w *writer) one(n *Node, parentPending *[]string) {
 		w.b.WriteString(dn)
 		w.b.WriteByte('>')
 	}
-	if n.N == fragName {
+	if n.N == rawName {
+		w.b.WriteString(n.RawT)
+	} else if n.N == fragName {
 		for i := range n.C {
 			w.node(&n.C[i], parentPending)
 			if w.left() <= 0 {
@@ -253,6 +260,10 @@ func (p *XMLPart) write() *writer {
 		return nil
 	}
 	w := &writer{max: MaxPartBytes, salt: p.Salt}
+	if p.Lit != "" {
+		w.b.WriteString(p.Lit)
+		return w
+	}
 	w.b.WriteString(prologBytes(p.Prolog))
 	if p.Root != nil {
 		var pending []string
